@@ -610,7 +610,7 @@ static void gen(Emitter &em, const Options &opt) {
     // (8) fault cases (C19): the k-th allocation of the last operation fails
     if (out.fault) {
         const size_t pres[] = {0, 5, 250, 255, 256, 257, 511, 512, 600};
-        static const char *lastops[] = {"a0:2122", "g0,300,5", "g0,5000,6", "c0,1,65", "c0,700,66", "o0,int,-12345:2d3132333435", "o0,long,-1:2d31",
+        static const char *lastops[] = {"a0:2122", "g0,300,5", "g0,5000,6", "c0,1,65", "c0,700,66", "o0,int,-12345:2d3132333435", "o0,long,-1:2d31", "o0,int,-7:2d37", "o0,llong,-123456789012:2d313233343536373839303132", "o0,llong,5:35",
                                         "o0,u16std:004100e9d83dde00", "o0,wcs:000000410001f600", "o0,std:4142", "o0,char,67", "z0:414243",
                                         "m0,1", "m1,0", "t0,3", "e0,2", "X0;D0"};
         for (size_t pre : pres) for (const char *lo : lastops) for (int k = 1; k <= 2; ++k) for (int other = 0; other < 2; ++other) {
